@@ -1583,6 +1583,17 @@ def _df_slice(df, lb = None, ub = None, openclose = '[)'):
     return df
 
 
+def _on_joint_index(dfs):
+    """
+    reindexes timeseries onto the union of their indexes.
+    pd.concat(axis = 1) drops labels of the joint index when an empty series stands between series whose index carries a freq
+    """
+    index = dfs[0].index
+    for d in dfs[1:]:
+        index = index.union(d.index)
+    return [d.reindex(index) for d in dfs]
+
+
 def df_slice(df, lb = None, ub = None, openclose = '(]', n = 1):
     """
     slices a dataframe/series/index based on lower/upper bounds.
@@ -1685,7 +1696,7 @@ def df_slice(df, lb = None, ub = None, openclose = '(]', n = 1):
         boundaries = sorted(set([date for date in lb + ub if date is not None]))
         df = [d if is_pd(d) else pd.Series(d, boundaries) for d in df]
         if n > 1:
-            df = [pd.concat(df[i: i+n], axis = 1).sort_index() for i in range(len(df))] # concat leaves the joint index unsorted if one of the series is empty
+            df = [pd.concat(_on_joint_index(df[i: i+n]), axis = 1).sort_index() for i in range(len(df))] # concat leaves the joint index unsorted if one of the series is empty
             for d in df:
                 d.columns = range(d.shape[1])
     dfs = as_list(df)
